@@ -3,6 +3,7 @@ package vc
 import (
 	"fmt"
 	"go/types"
+	"math/big"
 	"strings"
 )
 
@@ -214,7 +215,7 @@ const preludeTmpl = `(set-option :produce-models true)
 (define-fun godiv ((x Int) (y Int)) Int (ite (>= x 0) (ite (> y 0) (div x y) (- (div x (- y)))) (ite (> y 0) (- (div (- x) y)) (div (- x) (- y)))))
 (define-fun wrap_s ((x Int) (half Int)) Int (ite (and (>= x (- half)) (< x half)) x (- (mod (+ x half) (* 2 half)) half)))
 (define-fun wrap_u ((x Int) (m Int)) Int (ite (and (>= x 0) (< x m)) x (mod x m)))
-(define-fun pow2 ((k Int)) Int (ite (<= k 0) 1 (ite (= k 1) 2 (ite (= k 2) 4 (ite (= k 3) 8 (ite (= k 4) 16 (ite (= k 5) 32 (ite (= k 6) 64 (ite (= k 7) 128 (ite (= k 8) 256 (ite (= k 16) 65536 (ite (= k 24) 16777216 (ite (= k 32) 4294967296 (ite (= k 40) 1099511627776 (ite (= k 48) 281474976710656 (ite (= k 56) 72057594037927936 (ite (= k 64) 18446744073709551616 0)))))))))))))))))
+@@POW2@@
 `
 
 const funsTriggered = `(declare-fun sidx (Slice Int) Int)
@@ -232,5 +233,25 @@ const funsMacro = `(define-fun sidx ((s Slice) (k Int)) Int (+ (s-off s) k))
 
 // Prelude is the proof-oriented prelude (uninterpreted functions with triggered definitional axioms);
 // PreludeMacro defines the same functions as macros, which model finders handle better.
-var Prelude = strings.Replace(preludeTmpl, "@@FUNS@@\n", funsTriggered, 1)
-var PreludeMacro = strings.Replace(preludeTmpl, "@@FUNS@@\n", funsMacro, 1)
+var Prelude = strings.Replace(strings.Replace(preludeTmpl, "@@FUNS@@\n", funsTriggered, 1), "@@POW2@@", pow2Defs(), 1)
+var PreludeMacro = strings.Replace(strings.Replace(preludeTmpl, "@@FUNS@@\n", funsMacro, 1), "@@POW2@@", pow2Defs(), 1)
+
+// pow2Defs defines pow2(k) and shr(x,k) (logical/arithmetic right shift as floor division) for 0 <= k <= 64
+// as ite chains over constant divisors, so that no non-linear term reaches the solver.
+func pow2Defs() string {
+	var p, sh strings.Builder
+	p.WriteString("(define-fun pow2 ((k Int)) Int ")
+	sh.WriteString("(define-fun shr ((x Int) (k Int)) Int ")
+	for k := 0; k <= 64; k++ {
+		v := new(big.Int).Lsh(big.NewInt(1), uint(k)).String()
+		fmt.Fprintf(&p, "(ite (= k %d) %s ", k, v)
+		if k == 0 {
+			fmt.Fprintf(&sh, "(ite (<= k 0) x ")
+		} else {
+			fmt.Fprintf(&sh, "(ite (= k %d) (div x %s) ", k, v)
+		}
+	}
+	p.WriteString("0" + strings.Repeat(")", 65) + ")\n")
+	sh.WriteString("(ite (>= x 0) 0 (- 1))" + strings.Repeat(")", 65) + ")")
+	return p.String() + sh.String()
+}
